@@ -256,6 +256,54 @@ def check_dispatch(ctx, db, tname, modpath):
                   "the match on the action in %s::action has no wildcard arm" % tname, rules.where(fa), fn=fa)
 
 
+def check_authors(ctx, db):
+    """The table compares the acting key with `x.author()`: that is meaningful only if an author is fixed when the item
+    is created.  (a) the accessors are plain projections of a field named `author` (Issue::author: the author of the
+    *first* comment); (b) no function other than a constructor assigns an `author` field of these types."""
+    ACC = [("Comment", r"^radicle::cob::thread::Comment::author$"), ("Patch", r"^radicle::cob::patch::Patch::author$"),
+           ("Revision", r"^radicle::cob::patch::Revision::author$"), ("Review", r"^radicle::cob::patch::Review::author$")]
+    for nm, pat in ACC:
+        f = db.one(pat)
+        if f is None:
+            ctx.violated("anchor:%s::author" % nm, "%s::author not found (anchor missing)" % nm)
+            continue
+        calls = [c.get("n") or c.get("dn") or "" for _, _, c in db.calls(f)]
+        calls = [c for c in calls if not re.search(r"Deref::deref$|Clone::clone$|AsRef::as_ref$|Borrow::borrow$", c)]
+        rets = rules.ret_defs(f)
+        proj = False
+        for bb, kind, val in rets:
+            if kind == "expr":
+                e = val
+                while e[0] in ("ref", "deref"):
+                    e = e[1]
+                proj = e[0] == "field" and e[2] == "author" and nshow(e[1]) in ("arg1", "")
+                s_ = nshow(val)
+                proj = proj or s_ == "arg1.author"
+        ctx.check("acc:%s::author" % nm, proj and not calls and len(rets) == 1,
+                  "%s::author() is the `author` field recorded when the item was created (no computation: %s)" % (nm, calls or "none"),
+                  rules.where(f), fn=f)
+    ia = db.one(r"^radicle::cob::issue::Issue::author$")
+    if ia is None:
+        ctx.violated("anchor:Issue::author", "Issue::author not found (anchor missing)")
+    else:
+        fam = [ia] + db.closures_of.get(ia["n"], [])
+        calls = [c.get("n") or c.get("dn") or "" for f in fam for _, _, c in db.calls(f)]
+        first = any(c.endswith("Iterator::next") or c.endswith("::next") for c in calls) and any("comments" in c for c in calls)
+        other = [c for c in calls if re.search(r"::(last|next_back|rev|nth|max|min|max_by|min_by|max_by_key|min_by_key|skip|last_mut)$", c)]
+        uses = any(re.search(r"thread::Comment::author$", c) for c in calls)
+        ctx.check("acc:Issue::author", first and uses and not other, "Issue::author() is the author of the thread's first (root) comment", rules.where(ia), fn=ia)
+    # who assigns an author field
+    sites = []
+    for f in db.all_fns():
+        if f["crate"] != "radicle" or "cob" not in f["file"]:
+            continue
+        for bb, j, s_ in rules.field_writes(f, "author", r"cob::(thread::Comment|patch::(Patch|Revision|Review)|thread::Edit)"):
+            sites.append((f, bb, j))
+    for f, bb, j in sites:
+        ctx.violated("who:author-write:%s" % cfg.short(rules.root_key(db, f)), "an `author` field is reassigned after creation", rules.where(f, bb, j), fn=f)
+    ctx.held("who:author-write", "no function assigns an `author` field of a comment, patch, revision or review after construction (%d sites)" % len(sites), "")
+
+
 def run(ctx):
     db = ctx.db
     ctx.explanation = (
@@ -275,3 +323,4 @@ def run(ctx):
     check_table(ctx, db, pa, PATCH, "Patch")
     check_dispatch(ctx, db, "Issue", "issue")
     check_dispatch(ctx, db, "Patch", "patch")
+    check_authors(ctx, db)
